@@ -379,5 +379,23 @@ func C05_RunContext() {
 	}, 30000000)
 	vf.SetHook("poll", nil)
 	vf.Assert(res == 0, "compiled object usable after a failed run (Get/Set/RunContext): "+p.Name+": "+vf.LastGuard())
+	if ctxkind == 0 {
+		// ... and it behaves as a freshly compiled object does: a further run with
+		// the inputs a = b = 1 ends like the first run of a fresh compile with
+		// those inputs (nothing of the failed run is carried over)
+		var again, first error
+		r1 := vf.Guard(func() { again = c.RunContext(liveCtx()) }, 30000000)
+		s2 := tengo.NewScript([]byte(p.Src))
+		_ = s2.Add("hp", &tengo.UserFunction{Name: "hp", Value: hostPanic})
+		_ = s2.Add("a", 1)
+		_ = s2.Add("b", 1)
+		c2, err2 := s2.Compile()
+		vf.Assert(err2 == nil, "hostile program compiles again: "+p.Name)
+		r2 := vf.Guard(func() { first = c2.RunContext(liveCtx()) }, 30000000)
+		vf.Assert(r1 == r2 && errText(again) == errText(first), "a run after a failed run ends like the first run of a fresh compiled object: "+p.Name+": `"+errText(again)+"` vs `"+errText(first)+"`")
+		if again == nil && r1 == 0 && !hasPrefix(p.Name, "cyclic-") {
+			vf.Assert(Same(c.Get("out").Object(), c2.Get("out").Object()), "a run after a failed run computes what a fresh compiled object computes: "+p.Name)
+		}
+	}
 	vf.Reach("runcontext")
 }
